@@ -84,17 +84,31 @@ fn class_of<L: Lab>(l: &L) -> Option<u8> {
 // the serde window
 
 #[derive(Deserialize)]
-struct InfoMirror {
+struct InfoMirror<F> {
     class_count: usize,
-    prior: f64,
+    prior: F,
     /// theta (Gaussian) / feature_count (multinomial)
-    a: Array1<f64>,
+    a: Array1<F>,
     /// sigma (Gaussian) / feature_log_prob (multinomial)
-    b: Array1<f64>,
+    b: Array1<F>,
 }
 #[derive(Deserialize)]
-struct ModelMirror<L: Eq + Hash> {
-    class_info: HashMap<L, InfoMirror>,
+struct ModelMirror<F, L: Eq + Hash> {
+    class_info: HashMap<L, InfoMirror<F>>,
+}
+
+/// element types the models are instantiated with
+pub trait Flt: linfa::Float + Serialize + DeserializeOwned {
+    const IS_F32: bool;
+}
+impl Flt for f64 {
+    const IS_F32: bool = false;
+}
+impl Flt for f32 {
+    const IS_F32: bool = true;
+}
+fn f64_of<F: Flt>(v: F) -> f64 {
+    num_traits::ToPrimitive::to_f64(&v).unwrap_or(f64::NAN)
 }
 
 #[derive(Debug, Clone)]
@@ -105,7 +119,7 @@ pub struct Stats {
     pub b: Vec<f64>,
 }
 
-fn window<L: Lab, M: Serialize>(model: &M, obs: &mut Obs, what: &str) -> Option<BTreeMap<u8, Stats>> {
+fn window<F: Flt, L: Lab, M: Serialize>(model: &M, obs: &mut Obs, what: &str) -> Option<BTreeMap<u8, Stats>> {
     let bytes = match bincode::serialize(model) {
         Ok(b) => b,
         Err(e) => {
@@ -113,7 +127,7 @@ fn window<L: Lab, M: Serialize>(model: &M, obs: &mut Obs, what: &str) -> Option<
             return None;
         }
     };
-    let mirror: ModelMirror<L> = match bincode::deserialize(&bytes) {
+    let mirror: ModelMirror<F, L> = match bincode::deserialize(&bytes) {
         Ok(m) => m,
         Err(e) => {
             obs.fail(
@@ -129,7 +143,12 @@ fn window<L: Lab, M: Serialize>(model: &M, obs: &mut Obs, what: &str) -> Option<
             Some(c) => {
                 out.insert(
                     c,
-                    Stats { count: info.class_count, prior: info.prior, a: info.a.to_vec(), b: info.b.to_vec() },
+                    Stats {
+                        count: info.class_count,
+                        prior: f64_of(info.prior),
+                        a: info.a.iter().map(|v| f64_of(*v)).collect(),
+                        b: info.b.iter().map(|v| f64_of(*v)).collect(),
+                    },
                 );
             }
             None => {
@@ -253,16 +272,16 @@ fn classify(c: &NbCase, obs: &mut Obs) {
     obs.nontrivial_if(ranges.len() >= 3 && incomplete > 0);
 }
 
-fn to_arrays<L: Lab>(c: &NbCase, sh: &Shape) -> (Array2<f64>, Array1<L>, Array2<f64>) {
-    let x = Array2::from_shape_fn((sh.n, sh.p), |(i, j)| c.x[i][j]);
+fn to_arrays<F: Flt, L: Lab>(c: &NbCase, sh: &Shape) -> (Array2<F>, Array1<L>, Array2<F>) {
+    let x = Array2::from_shape_fn((sh.n, sh.p), |(i, j)| F::cast(c.x[i][j]));
     let y = Array1::from_shape_fn(sh.n, |i| L::make(c.y[i]));
     let nq = sh.n + c.queries.len();
-    let q = Array2::from_shape_fn((nq, sh.p), |(i, j)| if i < sh.n { c.x[i][j] } else { c.queries[i - sh.n][j] });
+    let q = Array2::from_shape_fn((nq, sh.p), |(i, j)| F::cast(if i < sh.n { c.x[i][j] } else { c.queries[i - sh.n][j] }));
     (x, y, q)
 }
 
 /// counts and priors are exact on both sides
-fn check_counts(c: &NbCase, got: &BTreeMap<u8, Stats>, obs: &mut Obs, tag: &str) -> bool {
+fn check_counts(c: &NbCase, got: &BTreeMap<u8, Stats>, obs: &mut Obs, tag: &str, f32_model: bool) -> bool {
     let all = present_classes(c, 0..c.y.len());
     let have: Vec<u8> = got.keys().cloned().collect();
     if !obs.ensure(have == all, &format!("{tag}-classes"), || {
@@ -278,7 +297,8 @@ fn check_counts(c: &NbCase, got: &BTreeMap<u8, Stats>, obs: &mut Obs, tag: &str)
         ok &= obs.ensure(st.count == cnt, &format!("{tag}-count"), || {
             format!("class {k}: class_count {} but the data holds {cnt} rows of it", st.count)
         });
-        let prior = cnt as f64 / n as f64;
+        // same arithmetic as the model's element type: one IEEE division
+        let prior = if f32_model { (cnt as f32 / n as f32) as f64 } else { cnt as f64 / n as f64 };
         ok &= obs.ensure(st.prior == prior, &format!("{tag}-prior"), || {
             format!("class {k}: prior {} but class frequency is {cnt}/{n} = {prior}", st.prior)
         });
@@ -334,10 +354,21 @@ fn check_argmax(
 // ------------------------------------------------------------------------------------------------
 // Gaussian
 
-/// `rel`: relative slack on the magnitude of the terms; `d_theta`, `d_sigma0`: how far the statistics
-/// of a model that passed the moment checks may be from `stats` (0 when `stats` are the model's own);
+/// Tolerances of the Gaussian moment checks: per feature absolute for theta and sigma, plus `rel`*|sigma|.
+pub struct GTol {
+    pub theta: Vec<f64>,
+    pub sigma0: Vec<f64>,
+    pub rel: f64,
+    /// own-statistics arg-max slack (relative to the magnitude of the terms)
+    pub margin: f64,
+    /// textbook arg-max: minimal relative margin
+    pub cross: f64,
+}
+
+/// `rel`: relative slack on the magnitude of the terms; `slack`: how far the statistics
+/// of a model that passed the moment checks may be from `stats` (None when `stats` are the model's own);
 /// their worst-case effect on the log-posterior is added (twice) to the slack. `None` = row not judged.
-fn gaussian_jll(stats: &BTreeMap<u8, Stats>, x: &[f64], rel: f64, d_theta: f64, d_sigma0: f64) -> Option<BTreeMap<u8, (f64, f64)>> {
+fn gaussian_jll(stats: &BTreeMap<u8, Stats>, x: &[f64], rel: f64, slack: Option<&GTol>) -> Option<BTreeMap<u8, (f64, f64)>> {
     let mut out = BTreeMap::new();
     for (k, st) in stats {
         if st.a.len() != x.len() || st.b.len() != x.len() {
@@ -356,8 +387,9 @@ fn gaussian_jll(stats: &BTreeMap<u8, Stats>, x: &[f64], rel: f64, d_theta: f64, 
             let t2 = -0.5 * d * d / s;
             v += t1 + t2;
             mag += t1.abs() + t2.abs();
-            if d_theta > 0.0 || d_sigma0 > 0.0 {
-                let ds = d_sigma0 + 1e-12 * s.abs();
+            if let Some(t) = slack {
+                let d_theta = t.theta.get(j).cloned().unwrap_or(f64::INFINITY);
+                let ds = t.sigma0.get(j).cloned().unwrap_or(f64::INFINITY) + t.rel * s.abs();
                 if ds >= 0.25 * s {
                     // the variance is not known well enough relative to its size
                     return None;
@@ -444,9 +476,8 @@ fn check_gaussian_moments(
     incremental: bool,
     obs: &mut Obs,
     tag: &str,
+    t: &GTol,
 ) -> (bool, bool) {
-    let tol_theta = TOL_THETA * sh.xmax + 1e-300;
-    let tol_sigma0 = TOL_SIGMA * (sh.xmax * sh.spread + sh.spread * sh.spread) + 1e-300;
     let mut ok = true;
     let mut known = false;
     for (k, want) in &reference.textbook {
@@ -457,10 +488,12 @@ fn check_gaussian_moments(
             continue;
         }
         for j in 0..sh.p {
+            let tol_theta = t.theta.get(j).cloned().unwrap_or(0.0);
+            let tol_sigma0 = t.sigma0.get(j).cloned().unwrap_or(0.0);
             ok &= obs.ensure((st.a[j] - want.a[j]).abs() <= tol_theta, &format!("{tag}-theta"), || {
                 format!("class {k} feature {j}: mean {} but the class mean of the data is {}", st.a[j], want.a[j])
             });
-            let tol = tol_sigma0 + 1e-12 * want.b[j].abs();
+            let tol = tol_sigma0 + t.rel * want.b[j].abs();
             let d_text = (st.b[j] - want.b[j]).abs();
             if d_text <= tol {
                 continue;
@@ -468,7 +501,7 @@ fn check_gaussian_moments(
             ok = false;
             let rec = reference.recurrence.get(k).and_then(|v| v.get(j)).cloned();
             match rec {
-                Some(r) if incremental && (st.b[j] - r).abs() <= tol + 1e-12 * r.abs() => {
+                Some(r) if incremental && (st.b[j] - r).abs() <= tol + t.rel * r.abs() => {
                     known = true;
                     obs.fail(
                         format!("{tag}-sigma-epsilon-recurrence"),
@@ -494,16 +527,27 @@ fn check_gaussian_moments(
     (ok, known)
 }
 
-fn run_gaussian<L: Lab>(c: &NbCase, sh: &Shape, obs: &mut Obs) {
-    let (x, y, q) = to_arrays::<L>(c, sh);
+/// global tolerances of the narrow stratum (all features share one scale)
+fn narrow_tol(sh: &Shape) -> GTol {
+    GTol {
+        theta: vec![TOL_THETA * sh.xmax + 1e-300; sh.p],
+        sigma0: vec![TOL_SIGMA * (sh.xmax * sh.spread + sh.spread * sh.spread) + 1e-300; sh.p],
+        rel: 1e-12,
+        margin: TOL_MARGIN,
+        cross: CROSS_MARGIN,
+    }
+}
+
+fn run_gaussian<F: Flt, L: Lab>(c: &NbCase, sh: &Shape, obs: &mut Obs, tol: &GTol) {
+    let (x, y, q) = to_arrays::<F, L>(c, sh);
     let reference = gaussian_reference(c, sh);
     let nq = q.nrows();
     let qrows: Vec<usize> = (0..nq).collect();
-    let qvec = |r: usize| -> Vec<f64> { q.row(r).to_vec() };
+    let qvec = |r: usize| -> Vec<f64> { q.row(r).iter().map(|v| f64_of(*v)).collect() };
 
     // ---- one fit on everything
     let ds = DatasetBase::new(x.clone(), y.clone());
-    let params = GaussianNb::<f64, L>::params().var_smoothing(c.smoothing);
+    let params = GaussianNb::<F, L>::params().var_smoothing(F::cast(c.smoothing));
     let fitted = match obs.call("gnb-fit", || params.fit(&ds)) {
         Some(Ok(m)) => Some(m),
         Some(Err(e)) => {
@@ -514,7 +558,7 @@ fn run_gaussian<L: Lab>(c: &NbCase, sh: &Shape, obs: &mut Obs) {
     };
 
     // ---- batch by batch
-    let checked = match GaussianNb::<f64, L>::params().var_smoothing(c.smoothing).check() {
+    let checked = match GaussianNb::<F, L>::params().var_smoothing(F::cast(c.smoothing)).check() {
         Ok(p) => p,
         Err(e) => {
             obs.fail("gnb:params-rejected", format!("var_smoothing {} rejected: {e}", c.smoothing));
@@ -554,9 +598,9 @@ fn run_gaussian<L: Lab>(c: &NbCase, sh: &Shape, obs: &mut Obs) {
     // ---- statistics + predictions of the batch model
     let mut fit_stats = None;
     if let Some(m) = &fitted {
-        if let Some(st) = window::<L, _>(m, obs, "gnb:fit") {
-            if check_counts(c, &st, obs, "gnb:fit") {
-                check_gaussian_moments(c, sh, &st, &reference, false, obs, "gnb:fit");
+        if let Some(st) = window::<F, L, _>(m, obs, "gnb:fit") {
+            if check_counts(c, &st, obs, "gnb:fit", F::IS_F32) {
+                check_gaussian_moments(c, sh, &st, &reference, false, obs, "gnb:fit", tol);
             }
             fit_stats = Some(st);
         }
@@ -564,9 +608,9 @@ fn run_gaussian<L: Lab>(c: &NbCase, sh: &Shape, obs: &mut Obs) {
     let mut inc_stats = None;
     let mut known = false;
     if let Some(m) = &incremental {
-        if let Some(st) = window::<L, _>(m, obs, "gnb:inc") {
-            if check_counts(c, &st, obs, "gnb:inc") {
-                let (_, k) = check_gaussian_moments(c, sh, &st, &reference, true, obs, "gnb:inc");
+        if let Some(st) = window::<F, L, _>(m, obs, "gnb:inc") {
+            if check_counts(c, &st, obs, "gnb:inc", F::IS_F32) {
+                let (_, k) = check_gaussian_moments(c, sh, &st, &reference, true, obs, "gnb:inc", tol);
                 known = k;
             }
             inc_stats = Some(st);
@@ -579,8 +623,6 @@ fn run_gaussian<L: Lab>(c: &NbCase, sh: &Shape, obs: &mut Obs) {
         return;
     }
     let textbook = &reference.textbook;
-    let tol_theta = TOL_THETA * sh.xmax + 1e-300;
-    let tol_sigma0 = TOL_SIGMA * (sh.xmax * sh.spread + sh.spread * sh.spread) + 1e-300;
     for (which, m, st) in [("fit", &fitted, &fit_stats), ("inc", &incremental, &inc_stats)] {
         let (Some(m), Some(st)) = (m, st) else { continue };
         if st.values().any(|s| s.b.iter().any(|v| !(*v > 0.0) || !v.is_finite())) {
@@ -595,13 +637,13 @@ fn run_gaussian<L: Lab>(c: &NbCase, sh: &Shape, obs: &mut Obs) {
             continue;
         }
         // always maximises the posterior recomputed from the model's own statistics
-        check_argmax(&preds, &qrows, &|r| gaussian_jll(st, &qvec(r), TOL_MARGIN, 0.0, 0.0), false, obs, &format!("gnb:{which}-pred-not-argmax"));
+        check_argmax(&preds, &qrows, &|r| gaussian_jll(st, &qvec(r), tol.margin, None), false, obs, &format!("gnb:{which}-pred-not-argmax"));
         // equals the textbook arg-max (hence fit == fit_with) wherever that is not tied
         if which == "inc" && known {
             obs.class("pred_vs_textbook_skipped_known_sigma");
             continue;
         }
-        check_argmax(&preds, &qrows, &|r| gaussian_jll(textbook, &qvec(r), CROSS_MARGIN, tol_theta, tol_sigma0), true, obs, &format!("gnb:{which}-pred-vs-textbook"));
+        check_argmax(&preds, &qrows, &|r| gaussian_jll(textbook, &qvec(r), tol.cross, Some(tol)), true, obs, &format!("gnb:{which}-pred-vs-textbook"));
     }
 }
 
@@ -694,7 +736,7 @@ fn run_multinomial<L: Lab>(c: &NbCase, sh: &Shape, obs: &mut Obs) {
         obs.skip("not_count_valued");
         return;
     }
-    let (x, y, q) = to_arrays::<L>(c, sh);
+    let (x, y, q) = to_arrays::<f64, L>(c, sh);
     let reference = multinomial_reference(c, sh);
     let nq = q.nrows();
     let qvec = |r: usize| -> Vec<f64> { q.row(r).to_vec() };
@@ -747,8 +789,8 @@ fn run_multinomial<L: Lab>(c: &NbCase, sh: &Shape, obs: &mut Obs) {
     for (which, m) in [("fit", &fitted), ("inc", &incremental)] {
         let Some(m) = m else { continue };
         let tag = format!("mnb:{which}");
-        let Some(st) = window::<L, _>(m, obs, &tag) else { continue };
-        if check_counts(c, &st, obs, &tag) {
+        let Some(st) = window::<f64, L, _>(m, obs, &tag) else { continue };
+        if check_counts(c, &st, obs, &tag, false) {
             check_multinomial_stats(sh, &st, &reference, obs, &tag);
         }
         if st.values().any(|s| s.b.len() != sh.p) {
@@ -807,8 +849,8 @@ pub fn check(c: &NbCase, obs: &mut Obs) {
     };
     classify(c, obs);
     match (c.kind, c.string_labels) {
-        (Kind::Gaussian, false) => run_gaussian::<usize>(c, &sh, obs),
-        (Kind::Gaussian, true) => run_gaussian::<String>(c, &sh, obs),
+        (Kind::Gaussian, false) => run_gaussian::<f64, usize>(c, &sh, obs, &narrow_tol(&sh)),
+        (Kind::Gaussian, true) => run_gaussian::<f64, String>(c, &sh, obs, &narrow_tol(&sh)),
         (Kind::Multinomial, false) => run_multinomial::<usize>(c, &sh, obs),
         (Kind::Multinomial, true) => run_multinomial::<String>(c, &sh, obs),
     }
@@ -969,4 +1011,224 @@ pub fn strategy(kind: Kind, tier: Tier) -> impl Strategy<Value = NbCase> {
         )
     })
     .prop_map(|(m, labels, x, cuts, queries)| build(m, labels, x, cuts, queries))
+}
+
+// ------------------------------------------------------------------------------------------------
+// wide stratum: many features, per-feature scales 10^s, f32 and f64 element types
+//
+// The data are derived from one generated seed (SplitMix) so the stored case stays small. This is
+// where a log-normaliser computed as ln(prod_j 2 pi sigma_j) instead of sum_j ln(2 pi sigma_j)
+// under-/overflows; the reference posterior is a sum of logarithms in f64.
+
+pub const WIDE_P: [usize; 4] = [8, 16, 64, 128];
+pub const WIDE_EXPONENTS: [i8; 5] = [-3, -2, 0, 2, 3];
+/// f32 models: theta within 1e-5*max|x_j|, sigma within 1e-4*(max|x_j|*spread_j + spread_j^2) + 1e-5*|sigma|
+pub const TOL_THETA_F32: f64 = 1e-5;
+pub const TOL_SIGMA_F32: f64 = 1e-4;
+pub const TOL_REL_F32: f64 = 1e-5;
+pub const TOL_MARGIN_F32: f64 = 1e-4;
+pub const CROSS_MARGIN_F32: f64 = 1e-3;
+
+#[derive(Debug, Clone, Serialize, Deserialize)]
+pub struct WideCase {
+    pub kind: Kind,
+    /// instantiate the model with f32 (Gaussian only)
+    pub f32_model: bool,
+    pub string_labels: bool,
+    pub p: usize,
+    /// Some(s): every feature has scale 10^s; None: every feature draws its own exponent from the seed
+    pub exponent: Option<i8>,
+    /// rows of every class (each >= 2)
+    pub rows_per_class: Vec<usize>,
+    /// rows ordered in class blocks instead of shuffled
+    pub blocks: bool,
+    /// cut after row i (first n-1 entries are used)
+    pub cuts: Vec<bool>,
+    pub smoothing: f64,
+    pub n_queries: usize,
+    pub seed: u64,
+}
+
+fn derive_wide(w: &WideCase) -> Option<(NbCase, Vec<i8>)> {
+    use vengine::gen::SplitMix;
+    let ncls = w.rows_per_class.len();
+    if !(1..=8).contains(&ncls) || w.p == 0 || w.p > 4096 || w.rows_per_class.iter().any(|r| *r == 0 || *r > 64) || w.n_queries > 16 {
+        return None;
+    }
+    let mut rng = SplitMix(w.seed);
+    let exps: Vec<i8> = (0..w.p)
+        .map(|_| {
+            let own = WIDE_EXPONENTS[rng.below(WIDE_EXPONENTS.len())];
+            w.exponent.unwrap_or(own)
+        })
+        .collect();
+    let round = |v: f64| if w.f32_model { v as f32 as f64 } else { v };
+    let mut y: Vec<u8> = vec![];
+    for (k, r) in w.rows_per_class.iter().enumerate() {
+        y.extend(std::iter::repeat(k as u8).take(*r));
+    }
+    let n = y.len();
+    if !w.blocks {
+        // Fisher-Yates
+        for i in (1..n).rev() {
+            let j = rng.below(i + 1);
+            y.swap(i, j);
+        }
+    }
+    let (x, queries): (Vec<Vec<f64>>, Vec<Vec<f64>>) = match w.kind {
+        Kind::Gaussian => {
+            let centres: Vec<Vec<f64>> = (0..ncls)
+                .map(|_| (0..w.p).map(|j| 3.0 * rng.gauss() * 10f64.powi(exps[j] as i32)).collect())
+                .collect();
+            let mut row = |k: usize, spread: f64| -> Vec<f64> {
+                (0..w.p).map(|j| round(centres[k][j] + spread * rng.gauss() * 10f64.powi(exps[j] as i32))).collect()
+            };
+            let x = y.iter().map(|k| row(*k as usize, 1.0)).collect();
+            let q = (0..w.n_queries).map(|i| row(i % ncls, 1.5)).collect();
+            (x, q)
+        }
+        Kind::Multinomial => {
+            // feature j is frequent in class j mod ncls, rare elsewhere; every eighth feature never occurs
+            let mut row = |k: usize| -> Vec<f64> {
+                (0..w.p)
+                    .map(|j| {
+                        if j % 8 == 7 {
+                            0.0
+                        } else if j % ncls == k {
+                            rng.below(9) as f64
+                        } else {
+                            (rng.below(4) / 2) as f64
+                        }
+                    })
+                    .collect()
+            };
+            let x = y.iter().map(|k| row(*k as usize)).collect();
+            let q = (0..w.n_queries).map(|i| row(i % ncls)).collect();
+            (x, q)
+        }
+    };
+    let mut sizes = vec![];
+    let mut cur = 1;
+    for i in 0..n.saturating_sub(1) {
+        if w.cuts.get(i).cloned().unwrap_or(false) {
+            sizes.push(cur);
+            cur = 1;
+        } else {
+            cur += 1;
+        }
+    }
+    sizes.push(cur);
+    Some((
+        NbCase { kind: w.kind, string_labels: w.string_labels, x, y, sizes, smoothing: w.smoothing, queries },
+        exps,
+    ))
+}
+
+/// per-feature tolerances (the features have very different scales)
+fn wide_tol(c: &NbCase, sh: &Shape, f32_model: bool) -> GTol {
+    let (t_theta, t_sigma, rel, margin, cross) = if f32_model {
+        (TOL_THETA_F32, TOL_SIGMA_F32, TOL_REL_F32, TOL_MARGIN_F32, CROSS_MARGIN_F32)
+    } else {
+        (TOL_THETA, TOL_SIGMA, 1e-12, TOL_MARGIN, CROSS_MARGIN)
+    };
+    let mut theta = vec![];
+    let mut sigma0 = vec![];
+    for j in 0..sh.p {
+        let lo = c.x.iter().map(|r| r[j]).fold(f64::INFINITY, f64::min);
+        let hi = c.x.iter().map(|r| r[j]).fold(f64::NEG_INFINITY, f64::max);
+        let xmax = lo.abs().max(hi.abs());
+        let spread = hi - lo;
+        theta.push(t_theta * xmax + 1e-300);
+        sigma0.push(t_sigma * (xmax * spread + spread * spread) + 1e-300);
+    }
+    GTol { theta, sigma0, rel, margin, cross }
+}
+
+pub fn check_wide(w: &WideCase, obs: &mut Obs) {
+    let Some((c, exps)) = derive_wide(w) else {
+        obs.skip("malformed_case");
+        return;
+    };
+    let Some(sh) = shape(&c) else {
+        obs.skip("malformed_case");
+        return;
+    };
+    classify(&c, obs);
+    obs.class(match w.p {
+        0..=8 => "wide_p_8",
+        9..=16 => "wide_p_16",
+        17..=64 => "wide_p_64",
+        _ => "wide_p_128",
+    });
+    obs.class_if(w.f32_model, "wide_f32_model");
+    obs.class_if(!w.f32_model, "wide_f64_model");
+    obs.class_if(w.exponent.is_none(), "wide_mixed_feature_scales");
+    obs.class_if(matches!(w.exponent, Some(e) if e < 0), "wide_all_features_small_scale");
+    obs.class_if(matches!(w.exponent, Some(e) if e > 0), "wide_all_features_large_scale");
+    let _ = exps;
+    match w.kind {
+        Kind::Gaussian => {
+            // where would prod_j 2 pi sigma_cj leave the range of the element type?
+            let reference = gaussian_reference(&c, &sh);
+            let limit = if w.f32_model { 37.0 } else { 307.0 };
+            let mut under = false;
+            let mut over = false;
+            for st in reference.textbook.values() {
+                let l10: f64 = st.b.iter().map(|s| (2.0 * std::f64::consts::PI * s).log10()).sum();
+                under |= l10 < -limit;
+                over |= l10 > limit;
+            }
+            obs.class_if(under, "wide_normaliser_product_below_float_range");
+            obs.class_if(over, "wide_normaliser_product_above_float_range");
+            let tol = wide_tol(&c, &sh, w.f32_model);
+            match (w.f32_model, w.string_labels) {
+                (false, false) => run_gaussian::<f64, usize>(&c, &sh, obs, &tol),
+                (false, true) => run_gaussian::<f64, String>(&c, &sh, obs, &tol),
+                (true, false) => run_gaussian::<f32, usize>(&c, &sh, obs, &tol),
+                (true, true) => run_gaussian::<f32, String>(&c, &sh, obs, &tol),
+            }
+        }
+        Kind::Multinomial => {
+            if w.string_labels {
+                run_multinomial::<String>(&c, &sh, obs)
+            } else {
+                run_multinomial::<usize>(&c, &sh, obs)
+            }
+        }
+    }
+}
+
+pub fn strategy_wide(kind: Kind, _tier: Tier) -> impl Strategy<Value = WideCase> {
+    let smoothing = match kind {
+        Kind::Gaussian => Just(1e-9).boxed(),
+        Kind::Multinomial => proptest::sample::select(vec![0.0, 1e-3, 1.0]).boxed(),
+    };
+    (
+        proptest::sample::select(WIDE_P.to_vec()),
+        prop_oneof![
+            3 => proptest::sample::select(WIDE_EXPONENTS.to_vec()).prop_map(Some),
+            2 => Just(None),
+        ],
+        proptest::collection::vec(2usize..=5, 2..=3),
+        any::<bool>(),
+        proptest::collection::vec(proptest::bool::weighted(0.3), 14),
+        smoothing,
+        0usize..=3,
+        any::<u64>(),
+        any::<bool>(),
+        any::<bool>(),
+    )
+        .prop_map(move |(p, exponent, rows_per_class, blocks, cuts, smoothing, n_queries, seed, f32_model, string_labels)| WideCase {
+            kind,
+            f32_model: f32_model && kind == Kind::Gaussian,
+            string_labels,
+            p,
+            exponent: if kind == Kind::Gaussian { exponent } else { Some(0) },
+            rows_per_class,
+            blocks,
+            cuts,
+            smoothing,
+            n_queries,
+            seed,
+        })
 }
